@@ -27,7 +27,21 @@ LookCases == {[blk |-> "look", lat |-> <<-90, -30, 0, 60, 90, 0, 30>>, lon |-> <
                         <<30, 180>>, <<0, 180>>, <<-30, 0>>, <<-60, 180>>, <<-90, 77>>}}
              \cup {[blk |-> "look", lat |-> <<0, 0, 0, 0, 0>>, lon |-> <<-170, -90, 0, 45, 180>>, q |-> q]
                    : q \in {<<0, 170>>, <<0, -175>>, <<0, 100>>, <<0, -44>>, <<0, 22>>, <<0, 23>>, <<0, 360>>, <<0, -135>>}}
-Cases == SetToSeq(GeoCases) \o SetToSeq(EucCases) \o SetToSeq(RectCases) \o SetToSeq(LookCases)
+\* gen  : integer-degree points in general position (content-derived, latitudes -89..89, longitudes -180..360)
+\*        plus near-polar, nearly coincident and nearly antipodal pairs: every pair is compared with the haversine
+\*        closed form (Defs_Geometry)
+\* glook: nearest-node queries at integer-degree points in general position
+GenLat(k, j) == ((k * 37 + j * 53 + j * j * 7) % 179) - 89
+GenLon(k, j) == ((k * 101 + j * 67 + j * j * 11) % 541) - 180
+NGen == IF Dense THEN 40 ELSE 8
+GenCases == {[blk |-> "gen", lat |-> [j \in 1..10 |-> GenLat(k, j)], lon |-> [j \in 1..10 |-> GenLon(k, j)]] : k \in 1..NGen}
+            \cup {[blk |-> "gen", lat |-> <<89, 89, -89, -89, 0, 0, 1, -1, 45, -45, 44, 90>>,
+                                  lon |-> <<0, 1, 180, 181, 0, 179, 180, -179, 10, -170, 10, 5>>],
+                  [blk |-> "gen", lat |-> <<0, 0, 0, 60, 60, -60, 30, -30, 1, 88>>,
+                                  lon |-> <<0, 1, 359, 0, 1, 180, 100, -79, 0, 200>>]}
+GLookCases == {[blk |-> "glook", lat |-> [j \in 1..10 |-> GenLat(k, j)], lon |-> [j \in 1..10 |-> GenLon(k, j)],
+                q |-> <<GenLat(k + 50, m), GenLon(k + 50, m)>>] : k \in 1..(IF Dense THEN 12 ELSE 4), m \in 1..4}
+Cases == SetToSeq(GenCases) \o SetToSeq(GLookCases) \o SetToSeq(GeoCases) \o SetToSeq(EucCases) \o SetToSeq(RectCases) \o SetToSeq(LookCases)
 Numbered == [k \in 1..Len(Cases) |-> [case |-> "q" \o ToString(k)] @@ Cases[k]]
 ASSUME ndJsonSerialize(IOEnv.GEN_OUT, Numbered)
 ASSUME PrintT(<<"GEN", "C12", Len(Cases)>>)
